@@ -147,7 +147,19 @@ func parseSetOption(line string) (name, value string, ok bool) {
 	if i+1 < len(tok) {
 		value = tok[i+1]
 	}
-	return strings.Join(n, " "), value, true
+	name = strings.Join(n, " ")
+	// option names are not case sensitive (UCI): report the announced spelling
+	for _, o := range EngineOptions {
+		if strings.EqualFold(o.Name, name) {
+			name = o.Name
+		}
+	}
+	for _, b := range []string{"Print Config", "Clear Hash"} {
+		if strings.EqualFold(b, name) {
+			name = b
+		}
+	}
+	return name, value, true
 }
 
 type searchOutcome struct {
